@@ -61,7 +61,8 @@ PROPS = {
         "technique": "differential runtime monitoring + drop ledger + allocation balance on generated aggregate programs",
         "rule": "rotogen 'aggregate' profile: programs declaring 0-5 record/enum types (generic, nested, anonymous; random "
                 "field orders over all scalar widths, String, List, Option, Trk) that copy, mutate, compare, match and emit "
-                "every leaf field through out_* after mutations; non-trivial/distinct as for C01",
+                "every leaf field through out_* after mutations; a third of the programs with >= 2 types declare a packed record "
+                "(2-7 one-byte or three two-byte fields) embedded next to a one-byte field of the next record; non-trivial/distinct as for C01",
         "jobs": diff_jobs("aggregate", 40000, 1000000, "C02", memcheck=True),
         "assumptions": DIFF_ASSUME,
         "min_tags": 100,
@@ -77,7 +78,8 @@ PROPS = {
                 "once and the allocation balance returns to zero after the call; non-trivial = ran and produced clone/drop "
                 "or host events; script constants may be aggregates whose fields are read through paths and may own "
                 "drop-tracked values (the ledger keeps what compilation created as the baseline of every call: a call may "
-                "neither add to it nor release it)",
+                "neither add to it nor release it); a sixth of the while loops have a condition that is one comparison of "
+                "heap-owning values depending on the counter",
         "jobs": diff_jobs("ownership", 40000, 1000000, "C03", memcheck=True),
         "assumptions": DIFF_ASSUME + ["known-defect patterns (see KNOWN_FINDINGS.txt) are kept out of the random stream; "
                                       "their witnesses in corpus/ run in every check"],
@@ -221,7 +223,8 @@ PROPS = {
                       "observed through exit status, stdout markers and a marker file.",
         "technique": "model-based runtime monitoring (verdict + marker-log oracle) in process and through CLI subprocesses",
         "rule": "generated packages with 1-4 modules, 0-12 test blocks, names colliding with functions, filtermaps, "
-                "constants, records, modules, imports, runtime functions and types; half of the in-process cases add an "
+                "constants, records, modules, imports, runtime functions and types; a third of the packages have a group of 2-3 "
+                "mutually recursive helpers entered through any member; half of the in-process cases add an "
                 "invalid variant that must be rejected; CLI cases run check/test/run on file and directory packages, 35% "
                 "invalid by construction; non-trivial = at least one test (or an invalid package for the CLI)",
         "jobs": [
@@ -273,7 +276,8 @@ PROPS = {
                 "zero-sized tracked, Option<u32>; list-script: the same sequences printed as Roto programs (out_* log vs "
                 "model) or routed at random through the Rust API or compiled script functions on the same objects; script "
                 "loops are also left from inside their body (return, return out of two loops, ? on None) after 0, 1, "
-                "len-1, len, len+1 elements; script element types include () (zero-sized, no clone function); "
+                "len-1, len, len+1 elements; script element types include () (zero-sized, no clone function); every 11th string "
+                "element is the empty string; "
                 "non-trivial = at least one result compared; evaluations = operations executed",
         "jobs": [
             {"family": "list-api", "flavour": "release", "cases": {"quick": 0, "thorough": 0}, "case_timeout": 60,
@@ -363,7 +367,8 @@ PROPS = {
                       "release builds because ABI disagreements can depend on optimisation.",
         "technique": "identity (round-trip) monitoring of values across the host boundary + drop ledger, release and debug builds",
         "rule": "case = one catalogue term (or context struct family) with >= 64 values per route (5000 thorough), edge values "
-                "first; evaluations = calls; events = comparisons; non-trivial = at least one value compared",
+                "first; 91 terms incl. four with a zero-sized 8-aligned payload nested in enums / lists; evaluations = calls; "
+                "events = comparisons; non-trivial = at least one value compared",
         "jobs": [
             {"family": "boundary", "flavour": "release", "cases": {"quick": 0, "thorough": 0}, "tiers": ["quick"]},
             {"family": "boundary", "flavour": "release", "cases": {"quick": 0, "thorough": 0}, "args": {"values": 5000},
@@ -412,7 +417,7 @@ PROPS = {
                       "overflow in debug), plus a smaller debug run.",
         "technique": "differential runtime monitoring of IR evaluator vs JIT from the same lowered IR (hook)",
         "rule": "rotogen 'evaluator' profile: non-recursive programs over scalars, records, enums, Option, strings and logging "
-                "host calls, 3 (quick) / 6 (thorough) input vectors each; non-trivial = the evaluator completed on at least "
+                "host calls (a third of the i64 / u32 inputs come from registered capturing closures), 3 (quick) / 6 (thorough) input vectors each; non-trivial = the evaluator completed on at least "
                 "one input; evaluations = executions attempted",
         "jobs": [
             {"family": "evalcmp", "flavour": "release", "cases": {"quick": 30000, "thorough": 600000}},
@@ -465,7 +470,7 @@ PROPS = {
         "rule": "cases 0..2378 = every sequence of 1-3 binary operators over the 13 operators with random unary prefixes; then "
                 "sampled: operator sequences of length 4-6, integer (underscores, hex, suffix, full range of the type; literals "
                 "of signed types under unary minus incl. the minimum of each type), float "
-                "(fraction, exponent, suffix), string and char (every escape, continuation), f-string ({{ }} escapes, Unicode "
+                "(fraction, exponent, suffix; digits and a suffix only, 1-25 digits), string and char (every escape, continuation), f-string ({{ }} escapes, Unicode "
                 "text), IPv4/IPv6/ASN/prefix literals, identifiers (XID start/continue from long-stable blocks, non-XID and "
                 "keyword negatives), comments and shebang at token boundaries; non-trivial = at least one value or verdict "
                 "compared",
@@ -496,7 +501,7 @@ PROPS = {
                 "enumerated history each over 20 operations (handles, clones, into_func closures, collected test cases, packages, "
                 "runtimes; every script has a zero-sized drop-tracked constant counted against the model; object "
                 "choice oldest/newest, at most 3 runtimes and 4 script versions, two same-typed closures with separate "
-                "captured state per runtime) of length <= 4 (6 thorough); remaining cases: random histories; evaluations = operations "
+                "captured state per runtime, plus one closure whose captured state is a zero-sized token with a destructor) of length <= 4 (6 thorough); remaining cases: random histories; evaluations = operations "
                 "executed; events = handle calls and live-set comparisons; non-trivial = at least one operation",
         "jobs": [
             {"family": "lifetimes", "flavour": "release", "cases": {"quick": 0, "thorough": 0}},
@@ -530,7 +535,8 @@ PROPS = {
                 "against, call and drop packages of one runtime with 3-48 same-typed closures owning tracked state); every "
                 "16th case: scenario shared-stringbufs (functions comparing two StringBuf constants in both operand orders) "
                 "and scenario shared-lists-mutating (pushes, swaps, comparisons, reads on two shared lists: conservation of "
-                "the elements, per-thread push order, no impossible value, progress); "
+                "the elements, per-thread push order, no impossible value, progress; mix swap-vs-snapshot: a registered function "
+                "takes to_vec snapshots while other threads swap - every snapshot is a permutation of the initial values); "
                 "non-trivial = at least one concurrent call compared",
         "jobs": [
             {"family": "concurrent", "flavour": "release", "cases": {"quick": 600, "thorough": 12000}, "shards": 4,
